@@ -118,6 +118,31 @@ CHECKS = {
              "slice covers process workers. This is the literal quantifier of the property (every call, k-th invocation).",
         note="Faults are exceptions at call boundaries in Python code; SIGKILL / faults inside C calls are outside the model. The cleanup's own unlink is excluded from the leak oracle.",
     ),
+    "C01": dict(
+        engine=E1, category="exploration", design="§4 C01",
+        technique="exhaustive enumeration of the declared product (prior configurations x data shapes x theta grid x API paths) on the real compiled kernel against a closed-form long-double reference, with conditioning-aware bands and defect-twin attribution of the open kernel findings",
+        text="Thorough: all 216 prior configurations x 36 data shapes x 1155-1575 theta rows x 3 paths (about 36 M kernel values); quick: a "
+             "24-configuration covering subset x 12 shapes x 330 rows. Every value is compared with ln N(y | M mu, C + s^2 I + M Lambda M^T) "
+             "from the declared prior. A deviation is accepted only if it equals the exact alternative semantics of a listed open kernel "
+             "finding whose trigger holds (K1-K4), or lies within the forward-error bound of the kernel's algebraic route (K5/K6).",
+        note="The kernel explored is the working tree's generated C (no Cython in the image); numbers outside the grids are not covered. Trusts numpy/long-double arithmetic and the independent Kepler solver.",
+    ),
+    "C03": dict(
+        engine=E1, category="exploration", design="§4 C03",
+        technique="exhaustive enumeration of configurations x data x theta x n_linear x path with a recording numpy Generator: (mean, cov, size) handed to multivariate_normal vs reference (a, A), bitwise pass-through of the draws",
+        text="Every row of the grid is forced through the rejection step; the arguments of each multivariate_normal call must be the reference "
+             "conditional posterior (same prior, cap and jitter as the marginal) and the emitted linear columns must be the generator's draws "
+             "bitwise, in design-matrix order and units, next to an unchanged copy of the nonlinear row. The distributional claim is reduced to "
+             "this enumerable part plus trust in numpy's sampler.",
+        note="numpy's multivariate_normal is trusted; kernel findings K1-K4 attributed by twins.",
+    ),
+    "C04": dict(
+        engine=E1, category="exploration", design="§4 C04",
+        technique="exhaustive enumeration of configurations x data x (returned and hand-built) rows: reconstructed orbit vs reference design matrix, and the Bayes identity between API likelihoods and reference prior/posterior",
+        text="For every returned row under accept-all scripted uniforms and three hand-built linear vectors per theta (K<0, 3-sigma trends, angles "
+             "outside [0,2pi)): samples.t_ref, get_orbit(i).radial_velocity(t)+offset = M(theta)x, and mll = ln p(y|theta,x) + ln p(x|theta) - ln N(x|a,A) to 1e-6.",
+        note="Survey calibration offsets are removed from the data by the check; ill-conditioned (tiny-error) shapes are left to C01.",
+    ),
 }
 NOT_YET = {}
 
